@@ -28,7 +28,7 @@ Views(ev) == [i \in 1..Len(ev.trees) |-> View(ev.trees[i])]
 RootedClass(Vs) == IF \E i \in 1..Len(Vs) : IsRooted(Vs[i]) THEN "rooted" ELSE "unrooted"
 
 \* kinds whose call must succeed on in-domain input
-MustSucceed == {"DistMatrix", "AvgMatrix", "TipBags", "Compare", "CompareRF", "CompareWeightedCLI", "CommonEdges", "CompareWeighted", "Consensus", "FBP", "TBE",
+MustSucceed == {"DistMatrix", "AvgMatrix", "TipBags", "Compare", "CompareRF", "CompareWeightedCLI", "CommonEdges", "CompareWeighted", "Consensus", "ConsensusMixedLengths", "FBP", "TBE",
                 "StatsSummary", "StatsEdges", "StatsSplits", "StatsNodes", "StatsTips", "Parsimony", "ParsimonySeq", "IndexOps", "HashPairs", "Quartets", "Generator", "Topologies", "Draws", "Shuffle"}
 \* kinds for which only "no crash, terminates" is claimed (degenerate sizes)
 OnlyTotal   == {"GeneratorTwoTips"}
@@ -46,6 +46,10 @@ Judge(ev, Vs) ==
     [] ev.kind = "CompareWeighted" -> F_CompareWeighted(Vs[1], Vs[2], ev.args.tips, ev.res)
     [] ev.kind = "Consensus"  -> IF WellFormed(ev.out) THEN F_Consensus(Vs, ev.args.num, ev.args.den, View(ev.out), ev.res)
                                  ELSE {"ConsensusWellFormed"}
+    [] ev.kind = "ConsensusMixedLengths" ->
+         IF WellFormed(ev.out)
+         THEN F_ConsensusNamed(Vs, ev.args.num, ev.args.den, View(ev.out), ev.res, "ConsensusLengthsOverTreesThatHaveOne")
+         ELSE {"ConsensusWellFormed"}
     [] ev.kind \in {"FBP", "TBE"} ->
          IF WellFormed(ev.out)
          THEN F_Support(ev.kind, Vs[1], [i \in 1..(Len(Vs) - 1) |-> Vs[i + 1]], View(ev.out), ev.res)
